@@ -348,6 +348,25 @@ def applyDelta (base delta : Bytes) : DeltaRes :=
         | some t => .ok t
         | none => .panic
 
+/-- `File::resolve_deltas` with one ref-delta whose base was handed in by the `resolve` callback
+(`ResolvedBase::OutOfPack`, as for thin packs): the base already lies at the front of the output
+vector, the instructions are inflated behind it and moved behind the two work buffers; then
+`apply(&out[..base_size], …)`. A declared base size SMALLER than the base reads a prefix of it
+(as lenient as the in-pack path); a larger one would read leftovers of the instructions
+(`outside`). Until the /repo fix recorded in known-findings.txt a base larger than twice both
+declared sizes always panicked in the 'rescue' copy (`&buffers[delta_range]` out of range). -/
+def applyDeltaThin (base delta : Bytes) : DeltaRes :=
+  match decodeHeaderSize delta with
+  | .panic => .panic
+  | .ok (baseSize, o1) =>
+    match decodeHeaderSize (delta.drop o1) with
+    | .panic => .panic
+    | .ok (resultSize, o2) =>
+      if baseSize > base.length then .outside
+      else match apply (base.take baseSize) resultSize (delta.drop (o1 + o2)) with
+        | some t => .ok t
+        | none => .panic
+
 /-! ### driver -/
 
 def fnv64 (bs : Bytes) : UInt64 :=
@@ -407,6 +426,14 @@ def applyOp (base delta : String) : Option String := do
     | .panic => "panic"
     | .outside => "outside")
 
+def applyxOp (base delta : String) : Option String := do
+  let base ← bytesArg? base
+  let delta ← bytesArg? delta
+  some (match applyDeltaThin base delta with
+    | .ok t => s!"ok {bobs t}"
+    | .panic => "panic"
+    | .outside => "outside")
+
 def handle? : List String → Option String
   | ["hdr", kind, size, base] => do
     let h ← parseHeader? kind base
@@ -438,6 +465,8 @@ def handle? : List String → Option String
       | .invalid => "err:toolong"
       | .panic => "panic"
     some s!"mem={mem} stream={rd}"
+  | ["applyx", base, delta] => applyxOp base delta
+  | ["applyx", base, delta, _expect] => applyxOp base delta
   | ["apply", base, delta] => applyOp base delta
   | ["apply", base, delta, _expect] => applyOp base delta
   | _ => none
